@@ -5,7 +5,9 @@ CONSTANTS
   MaxSeg = 2
   WatchPerSegment = TRUE
   SwapInstallsOld = FALSE
+  ResetOnRoll = FALSE
   Reader = {r1, r2}
 INVARIANTS TypeOK AckedDurable AckedPublished PublishedFindable ReaderNeverMisses
 PROPERTY PublishedMonotone
+VIEW ViewNoHist
 CHECK_DEADLOCK FALSE
